@@ -80,7 +80,7 @@ VARIANTS = [
     ("C06", OL, "        self._lossObj = Normal(self._y, self._weight, self._spread_param)", "        self._lossObj = Normal(self._y, self._spread_param, self._weight)", "R-WIRE"),
     ("C06", OL, "        super().__init__(theta, ode, x0, t0, t, y,\n                         state_name, state_weight, shape, target_param, target_state)", "        super().__init__(theta, ode, x0, t0, t, y,\n                         state_name, shape, state_weight, target_param, target_state)", "R-WIRE"),
     ("C06", L, "                self._setX0(theta[-self._num_state:])\n                self._setParam(theta[:self._num_param])\n        else:", "                self._setX0(theta[:self._num_state])\n                self._setParam(theta[-self._num_param:])\n        else:", "R-KV"),
-    ("C06", L, "        self._observeT = t.copy()", "        self._observeT = t[::-1].copy()", "R-ROWMATCH"),
+    ("C06", L, "        self._observeT = t.copy()", "        self._observeT = t[::-1].copy()", "R-KV"),
     # ------------------------------------------------------------------ C07
     ("C07", L, "        sens = np.reshape(sens, (n, num_s, num_out), 'F')\n        for j in range(num_out):\n            sens[:, :, j] *= self._weight\n\n        grad", "        sens = np.reshape(sens, (n, num_s, num_out))\n        for j in range(num_out):\n            sens[:, :, j] *= self._weight\n\n        grad", "R-GRADSEL"),
     ("C07", L, "                    index_out.append(j + (i + 1 + n_p)*n_s)\n        else:", "                    index_out.append(j + (i + n_p)*n_s)\n        else:", "R-GRADSEL"),
@@ -185,5 +185,14 @@ REFACTORINGS = [
     ("C13", D, "        return np.append(out1, out2)\n\n    def ode_and_sensitivity_T", "        return np.append(np.asarray(out1), out2)\n\n    def ode_and_sensitivity_T", None),
     ("C03", D, "                eqn, isDifficult = simplifyEquation(diff(ode[i], p, 1))\n                self._Grad[i,j] = eqn", "                d_ip = diff(ode[i], p, 1)\n                eqn, isDifficult = simplifyEquation(d_ip)\n                self._Grad[i,j] = eqn", None),
     ("C02", U, "        solution.append(o1)\n    # finish integration", "        solution += [o1]\n    # finish integration", None),
+    # refactorings of the constructs the wave-3 rules look at
+    ("C01", V, "                for _key, _value in derived_var.items():\n                    _eqn = eval", "                for _k, _v in derived_var.items():\n                    _key, _value = _k, _v\n                    _eqn = eval", None),
+    ("C08", "model/ode_utils/compile_canary.py", "        self._states = dict([(state, True) for state in self.states])", "        self._states = {state: True for state in self.states}", None),
+    ("C16", S, "        self.get_ReactantMatrix()\n\n        # keep jumping", "        self.get_ReactantMatrix()\n        if self._vMatCache is None:\n            self._vMatCache = self.get_StateChangeMatrix()\n\n        # keep jumping", None),
+    ("C06", L, "            self._targetParam = ode_utils.str_or_list(target_param)", "            self._targetParam = list(ode_utils.str_or_list(target_param))", None),
+    ("C18", L, "        self._stateName = state_name\n", "        self._stateName = list(state_name)\n", None),
+    ("C19", R, "    if log:\n        return st.norm.logpdf(x, loc=mean, scale=sd)\n    else:\n        return st.norm.pdf(x, loc=mean, scale=sd)", "    density = st.norm.logpdf if log else st.norm.pdf\n    return density(x, loc=mean, scale=sd)", None),
+    ("C19", R, "    if log:\n        return st.norm.logpdf(x, loc=mean, scale=sd)\n    else:\n        return st.norm.pdf(x, loc=mean, scale=sd)", "    return st.norm.logpdf(x, loc=mean, scale=sd) if log else st.norm.pdf(x, loc=mean, scale=sd)", None),
+    ("C17", L, "        self._ode.parameters = self._theta\n        # TODO: is this the correct approach", "        ode = self._ode\n        ode.parameters = self._theta\n        # TODO: is this the correct approach", None),
 ]
 VARIANTS += REFACTORINGS
